@@ -82,7 +82,9 @@ def c18(run, a):
         os.remove(tf)
     cov = run.coverage
     cov["evaluations"] += res["evaluations"]
-    cov["distinct_nontrivial"] += sum(1 for v in json.load(open(vec))["vectors"] if v["valid"] and any(r[1] == 2 ** json.load(open(vec))["w"] - 1 for r in v["ranges"]))
+    vmeta = json.load(open(vec))
+    top = 2 ** vmeta["w"] - 1
+    cov["distinct_nontrivial"] += sum(1 for v in vmeta["vectors"] if v["valid"] and any(r[1] == top for r in v["ranges"]))
     cov["rule"] = ("Words.tla: all (first,last) words, W=4, termination + exact walk; FipConf vectors at the top of the IPv4 space under a 2 s watchdog "
                    "(non-trivial = valid pool with a range ending at the maximum address); plus every operation of the IPAM-family traces under the "
                    "scheduler watchdog with panic capture; plus random NetworkPolicy/pod event histories through the real PolicyManager (every policyTypes/peer/port form of the universe). "
@@ -150,9 +152,9 @@ def c12(run, a):
     cov["distinct_nontrivial"] = r["nontrivial"]
     cov["exhaustive"] = False
     cov["plugin_invocations_observed"] = r["invocations"]
-    cov["rule"] = ("TLC enumerates every scenario (a pod out of 6 annotation/ENI shapes for each of 2 containers, <= %d ADD/DEL requests, <= %d failing (network, command) pairs per request) and "
+    cov["rule"] = ("TLC enumerates every scenario (a pod out of 8 annotation/ENI shapes for each of 2 containers, <= %d ADD/DEL requests, <= %d failing (network, command) pairs per request) and "
                    "computes the expected invocations, response and saved list from CNIMux.tla (PairLaw, RepeatLaw, RetryLaw checked on the spec); a seeded sample of the scenarios is run against the real "
-                   "daemon over its unix socket with recording plugins; non-trivial = some request invokes >= 2 plugins or has an injected failure" % ((2, 1) if quick else (3, 2)))
+                   "daemon over its unix socket with recording plugins (%s scenarios); non-trivial = some request invokes >= 2 plugins or has an injected failure" % (2, 1, "400" if quick else "6000"))
     s0 = meta["scenarios"][len(meta["scenarios"]) // 3]
     cov["samples"] = [s0]
     for fd in r["findings"] or []:
